@@ -45,7 +45,10 @@ RULE = ('pyipmi.ipmitool.main() is run in-process (sys.argv, stdout/stderr, pyip
         'forms, repeated, any order, routing literals, interface options, compared field by field with the Lean model of main '
         'and with the values that were generated; (3) raw requests of arbitrary LUN / NetFn / bytes incl. out-of-range and '
         'malformed words (request seen by the BMC, stdout, exit); (4) lookup vectors (prefixes, unknown words, words containing '
-        'blanks); (5) int(s,0)/int(s) of CPython vs the model on random literal-like strings.  A case is distinct by its argv '
+        'blanks); (5) int(s,0)/int(s) of CPython vs the model on random literal-like strings; (6) -t / -b / -r combinations '
+        'judged on the frame of the real rmcp interface and the command line of the real ipmitool interface (C20:option:-b), '
+        'and the 27 aardvark option combinations judged on the adapter writes of the real Aardvark interface '
+        '(C20:ifopt:aardvark:<option>=<value>).  A case is distinct by its argv '
         '(+ fault); it is non-trivial when the handler was reached or an option was given.  (0) HISTORIES, run first: 2-4 '
         'consecutive main() runs in one process - every option (-t -b -r -I -o -H -p -U -P -L -v -J) given in one run and absent '
         'in the next, in both orders and alternating; every session option left out next to -H; failing runs (completion '
@@ -77,13 +80,25 @@ ASSUMPTIONS = [
     'interface reports an unanswered request as socket.timeout / RetryError and the ipmitool back-end as '
     'IpmiConnectionError was confirmed once by hand, not on every run',
     '`hpm install` takes a time-out of Activate Firmware for "activation under way" (HPM.1: the IPM controller may '
-    'restart) - not judged as a swallowed time-out; magnitudes that overflow a float (e^x, 10^x of huge x) are not generated',
+    'restart) - not judged as a swallowed time-out; nor is a time-out of an Upload Firmware Block that the library answers by sending the identical block again (HPM.1 repetition, repair b19459e; the upload itself is judged by C18); magnitudes that overflow a float (e^x, 10^x of huge x) are not generated',
     'the translator reads the handler facts off the AST with fixed idioms (`if p is None: return`, `hasattr(s, ...)`, '
     '`if states is None`, the except classes around convert_sensor_raw_to_value); another correct idiom shows as a '
     'model/code disagreement, not as silence',
-    'observations of the audit that the property text does not decide (kept out of the verdict): -b <channel> builds the '
-    'one-hop routing [(0x20, channel, 0)] (the property names target address and explicit routing -r; -b is compared with '
-    'the model only); `sdr list` (full and compact records) and the compact branch of `sdr show` / `sdr showall` call '
+    '-b <channel> ("Set target channel", audit round 3, accepted): with -t T (default 20h) and -b B and no -r the request '
+    'must reach slave address T behind the BMC over channel B.  Stream bridge: -b alone, with -t before / after, with a later '
+    '-r (the explicit routing wins), -t / -r alone as controls, decimal and hex literals; the Target main() builds is handed '
+    'to the REAL Rmcp interface (only the datagram write is replaced) and the frame is read by a reference parser written '
+    'from the IPMB request format and Send Message (IPMI v2.0 22.7: NetFn 06h cmd 34h, data byte 1 [3:0] = channel, then '
+    'the encapsulated request; both checksums verified), and main() is run unsubstituted with -I ipmitool (only the '
+    'process launch is replaced): the command line must carry -t T -b B.  -r followed by -b is compared with the model '
+    'only (which of the two should win is not decided by the property); in the option / history streams -b stays a tie.  '
+    'Aardvark interface options (accepted in round 3): main() unsubstituted with -I aardvark over a recording fake of the '
+    'pyaardvark module with a BMC on the bus - all 27 combinations of pullups / power / fastmode in {on, off, absent}: '
+    'every option given must be written to the adapter once with its value (fast mode: last bit rate 400 / 100), an '
+    'absent pullups / power option must not be written; the writes are also compared with the Lean model of '
+    'Aardvark.open (guards read off the AST)',
+    'observations of the audit that the property text does not decide (kept out of the verdict): '
+    '`sdr list` (full and compact records) and the compact branch of `sdr show` / `sdr showall` call '
     'get_sensor_reading(number) and so read LUN 0 whatever sensor owner LUN the record carries: on a controller with '
     'sensors on LUN 1 / 3 they print the reading of the sensor with that number on LUN 0, or a completion code CBh (stub '
     'profile luns, Props theorem sdr_list_and_compact_read_lun0).  The API twin of these four reads is '
@@ -91,8 +106,7 @@ ASSUMPTIONS = [
     'of `sdr show` / `sdr showall` is get_sensor_reading(number, owner_lun).  The responder LUN of every request is part '
     'of the comparison, and Props.C20.sensor_reads_today pins the LUN argument of all six calls, so any change of which '
     'LUN is read - in either direction - is reported (signature C20:requests:<entry>:lun).  -L accepts user / operator / administrator only '
-    '(callback / oem -> KeyError: not generated); Aardvark pullups=off / power=off are parsed to False and handed to the '
-    'interface as given (that aardvark.py treats False as "not given" is outside ipmitool.py)',
+    '(callback / oem -> KeyError: not generated)',
     'the as-shipped counter-example theorems are about a frozen copy of the pinned table (Lemmas/CliAsShipped.lean); '
     'nonlinear_afterRound1_counterexample about a frozen copy of the handler facts generated from commit 9e975ea',
     'a non-linear sensor (linearisation 70h..7Fh) has no formula: what the tool must do for it is "not end the listing" '
@@ -594,10 +608,15 @@ def observed_end(o, like):
             (like[2] if like[0] == 'raises' else None))
 
 
-def _by_design(name, request, fault):
+def _by_design(name, request, fault, following=None):
     """HPM.1: the IPM controller may restart while it activates the new firmware, so `hpm install` takes a
     time-out of Activate Firmware for "activation under way" (documented exemption, see ASSUMPTIONS)"""
-    return name == 'hpm install' and fault[0] == 'timeout' and request[1] == 0x2c and request[2].startswith('35')
+    if name == 'hpm install' and fault[0] == 'timeout' and request[1] == 0x2c and request[2].startswith('35'):
+        return True
+    # HPM.1: an Upload Firmware Block that got no answer is repeated with the same block number (repair b19459e,
+    # C18 judges the upload itself): the time-out is answered by the identical request, nothing is swallowed
+    return (name == 'hpm install' and fault[0] == 'timeout' and request[1] == 0x2c and request[2].startswith('32')
+            and following is not None and following == request)
 
 
 def _last_line(o):
@@ -721,7 +740,8 @@ def judge_entry_run(ctx, name, idx, argv, api_fn, profile, faults, unresolved_na
         ctx.count('outcome:%s%s' % (a_out[0], ':close' if a_close is not None else ''))
     elif a_out[0] == 'ok':
         hard = [k for k in fault_hit if (faults[k][0] != 'cc' or faults[k][1] in HARD_CC)
-                and not _by_design(name, o.requests[k], faults[k])]
+                and not _by_design(name, o.requests[k], faults[k],
+                                 o.requests[k + 1] if k + 1 < len(o.requests) else None)]
         inline = name == 'sdr list' and any('ERR: CC=0x%02x' % faults[k][1] in o.stdout for k in hard if faults[k][0] == 'cc')
         if hard and not inline:
             # the library call itself swallowed a BMC error: the tool ends with status 0 and no message
@@ -1301,8 +1321,11 @@ def _pyval(tok):
     if tok[0] == 'S':
         return dec(tok[1:])
     if tok[0] == 'R':
-        a, b, c = tok[1:].split(':')
-        return [(int(a), int(b), int(c))]
+        f = [int(x) for x in tok[1:].split(':')]
+        if len(f) == 5:      # two hops, the last one without a channel (the bridging statement of main)
+            return [(f[0], f[1], f[2]), (f[3], f[4], None)]
+        a, b, c = f
+        return [(a, b, c)]
     raise ValueError(tok)
 
 
@@ -1956,6 +1979,330 @@ def _ifopts(ctx):
                 ctx.disagree('ifopts', {'kind': 'ifopts', 'iface': iface, 's': s}, m, code)
 
 
+# -------------------------------------------------------- -b <channel> on the real rmcp / ipmitool interfaces
+# "Set target channel": with -t T (default 20h) and -b B and no explicit -r the request must reach the controller T
+# behind the BMC over channel B.  Reference (IPMI v2.0): IPMB request framing (figure 2 of the IPMB spec / §13.8:
+# rsSA, netFn/rsLUN, chk1, rqSA, rqSeq/rqLUN, cmd, data, chk2) and Send Message (§22.7: NetFn App 06h, cmd 34h,
+# data byte 1 [3:0] channel number, then the encapsulated request).  The ipmitool interface must hand `-t T -b B`
+# to the external ipmitool (its documented options for exactly this).
+GET_DEVICE_ID_RSP = [0x00, 0x12, 0x81, 0x01, 0x23, 0x02, 0xbf, 0x98, 0x3a, 0x00, 0x34, 0x12]
+
+
+def _cks_ok(bs):
+    return sum(bs) & 0xff == 0
+
+
+def ref_parse_ipmb(frame):
+    """-> (channels bridged over, rsSA, netfn, lun, cmd, data) of the innermost request | ('malformed', why)"""
+    f = list(frame)
+    chans = []
+    while True:
+        if len(f) < 7:
+            return ('malformed', 'short frame %s' % bytes(f).hex())
+        if not _cks_ok(f[0:3]) or not _cks_ok(f[3:]):
+            return ('malformed', 'checksum of %s' % bytes(f).hex())
+        rs, netfn, lun, cmd, data = f[0], f[1] >> 2, f[1] & 3, f[5], f[6:-1]
+        if netfn == 0x06 and cmd == 0x34 and data:
+            chans.append(data[0] & 0x0f)
+            f = data[1:]
+            continue
+        return (chans, rs, netfn, lun, cmd, data)
+
+
+def rmcp_wire(target, routing, lun, netfn, raw):
+    """the Target main() built, encoded by the REAL Rmcp interface (only the datagram write is replaced)"""
+    import pyipmi
+    from pyipmi.interfaces.rmcp import Rmcp
+
+    class Stop(Exception):
+        pass
+    got = []
+    t = pyipmi.Target(target)
+    if routing is not None:
+        t.set_routing([tuple(h) for h in routing])
+    r = Rmcp()
+    r._drain_socket = lambda: None
+
+    def grab(data, *a, **k):
+        got.append(bytes(bytearray(data)))
+        raise Stop()
+    r._send_ipmi_msg = grab
+    with _quiet():
+        try:
+            r.send_and_receive_raw(t, lun, netfn, bytes(bytearray(raw)))
+        except Stop:
+            pass
+        except Exception as e:  # noqa
+            return ('raise', type(e).__name__)
+    return got[0] if got else ('raise', 'nothing sent')
+
+
+def run_real_ipmitool(argv):
+    """main() unsubstituted with -I ipmitool; only the process launch is replaced -> (exit, [command lines], stdout)"""
+    import pyipmi.ipmitool as T
+    from pyipmi.interfaces.ipmitool import Ipmitool
+    cmds = []
+
+    def fake_run(cmd):
+        cmds.append(cmd)
+        return (' ' + ' '.join('%02x' % b for b in GET_DEVICE_ID_RSP[1:]) + '\n').encode(), 0
+    real = Ipmitool.__dict__['_run_ipmitool']
+    real_json = T.json_output
+    Ipmitool._run_ipmitool = staticmethod(fake_run)
+    T.json_output = False
+    try:
+        with _quiet() as out:
+            sys.argv = ['ipmitool.py'] + list(argv)
+            try:
+                T.main()
+                ex = ('return',)
+            except SystemExit as e:
+                ex = ('exit', 0 if e.code is None else e.code)
+            except BaseException as e:  # noqa
+                ex = ('raise', type(e).__name__, str(e)[:200])
+            text = out.getvalue()
+    finally:
+        Ipmitool._run_ipmitool = real
+        T.json_output = real_json
+    return ex, cmds, text
+
+
+def _ipmitool_opts(cmd):
+    """-t / -b / -T / -B of an ipmitool command line -> dict"""
+    t = cmd.split(' ')
+    d = {}
+    for i, w in enumerate(t[:-1]):
+        if w in ('-t', '-b', '-T', '-B'):
+            try:
+                d[w] = int(t[i + 1], 0)
+            except ValueError:
+                d[w] = t[i + 1]
+    return d
+
+
+def bridge_findings(case, o=None):
+    """the reference's judgement of one -t/-b/-r combination -> [(signature, what, expected, observed)]"""
+    words, T_, B, R = case['words'], case['T'], case['B'], case['R']
+    tgt = 0x20 if T_ is None else T_
+    out = []
+    if o is None:
+        o = run_cli(words + ['raw', '6', '1'])
+    if o.launch is None:
+        return [('C20:option:not-launched', 'a valid option vector does not reach the handler', 'handler started',
+                 str(o.exit))]
+    L = o.launch
+    if R is not None:
+        want_path = ([h[2] for h in R[:-1]], R[-1][1])
+        sig, optname = 'C20:option:-r', '-r'
+    elif B is not None:
+        want_path = ([B], tgt)
+        sig, optname = 'C20:option:-b', '-b'
+    else:
+        want_path = ([], tgt)
+        sig, optname = 'C20:option:-t', '-t'
+    want = (want_path[0], want_path[1], 0x06, 0, 0x01, [])
+    # --- rmcp: the frame put into the RMCP packet
+    fr = rmcp_wire(L['target'], L['routing'], 0, 0x06, [0x01])
+    got = ref_parse_ipmb(fr) if isinstance(fr, bytes) else fr
+    if got != want:
+        out.append((sig, 'option %s does not take effect on the rmcp interface: the request does not reach slave address '
+                    '%02Xh over channel(s) %s' % (optname, want_path[1], want_path[0]),
+                    'IPMB frame: Send Message over channels %s around a request to rsSA %02Xh, NetFn 06h cmd 01h' % (
+                        want_path[0], want_path[1]),
+                    '%s = %r' % (fr.hex() if isinstance(fr, bytes) else fr, got)))
+    # --- ipmitool: the command line handed to the external tool (2-hop paths only: `-t <addr> -b <channel>`)
+    if len(want_path[0]) <= 1:
+        ex, cmds, text = run_real_ipmitool(['-I', 'ipmitool', '-H', '10.0.0.1', '-U', 'admin', '-P', 'pw'] + words +
+                                           ['raw', '6', '1'])
+        d = _ipmitool_opts(cmds[0]) if cmds else None
+        wd = {'-t': want_path[1]}
+        if want_path[0]:
+            wd['-b'] = want_path[0][0]
+        okd = d == wd or (not want_path[0] and want_path[1] == 0x20 and d == {})
+        if ex != ('return',) or len(cmds) != 1 or not okd or ' raw 0x06 0x01' not in cmds[0]:
+            out.append((sig, 'option %s does not take effect on the ipmitool interface: the external ipmitool is not told '
+                        'to reach slave address %02Xh%s' % (optname, want_path[1], (' over channel %d' % want_path[0][0])
+                                                            if want_path[0] else ''),
+                        'one ipmitool run with %s … raw 0x06 0x01' % ' '.join(
+                            '%s %s' % (k, v) for k, v in sorted(wd.items())),
+                        '%s %r' % (ex, cmds[:2])))
+    return out
+
+
+def gen_bridge_cases(rng, n):
+    cases = []
+    orders = ['b', 'tb', 'bt', 'tb', 'bt', 'br', 'tbr', 'btr', 't', 'r', '']
+    for i in range(n):
+        order = orders[i % len(orders)]
+        T_ = rng.choice([0x82, 0x72, 0x8e, 0x20, rng.randrange(1, 128) * 2]) if 't' in order else None
+        B = rng.choice([0, 7, rng.randrange(1, 16)]) if 'b' in order else None
+        R = [(0x81, 0x20, rng.randrange(0, 16)), (0x20, rng.choice([0x82, 0x72, 0x84]), None)] if 'r' in order else None
+        words = []
+        for c in order:
+            form = rng.choice(['sep', 'glued'])
+            if c == 't':
+                a = lit(T_, rng.choice(['dec', 'hex', 'HEX']))[0]
+            elif c == 'b':
+                a = lit(B, rng.choice(['dec', 'hex']))[0]
+            else:
+                a = repr(R)
+            words += ['-' + c, a] if form == 'sep' else ['-' + c + a]
+        cases.append({'kind': 'bridge', 'words': words, 'argv': words + ['raw', '6', '1'], 'T': T_, 'B': B,
+                      'R': None if R is None else [list(h) for h in R]})
+    return cases
+
+
+def _bridge(ctx):
+    rng = ctx.rng('bridge')
+    drv = ctx.driver('drv_c20')
+    n = 44 if ctx.tier == 'quick' else 440
+    directed = [{'kind': 'bridge', 'words': ['-t', '0x82', '-b', '7'], 'argv': ['-t', '0x82', '-b', '7', 'raw', '6', '1'],
+                 'T': 0x82, 'B': 7, 'R': None}]
+    for case in directed + gen_bridge_cases(rng, n):
+        if case['R'] is not None:
+            case['R'] = [tuple(h) for h in case['R']]
+        o = run_cli(case['argv'])
+        line = drv.ask('main ' + encs(case['argv']))
+        ctx.case(('bridge',) + tuple(case['argv']), nontrivial=case['B'] is not None)
+        ctx.count('bridge:%s' % ''.join(w[1] for w in case['words'] if w.startswith('-') and len(w) >= 2 and w[1] in 'tbr'))
+        jcase = dict(case, R=None if case['R'] is None else [list(h) for h in case['R']])
+        if line.startswith('launch '):
+            compare_launch(ctx, jcase, line, o)
+        else:
+            ctx.disagree('main', jcase, line, str(o.exit))
+        for sig, what, exp, got in bridge_findings(case, o):
+            ctx.violate(sig, what, jcase, expected=exp, observed=got)
+
+
+# ------------------------------------------------------------ aardvark interface options on the adapter
+# usage(): pullups=<on|off> "Enable/disable pullups", power=<on|off> "Enable/disable target power", fastmode=<on|off>.
+# main() unsubstituted with -I aardvark; only the pyaardvark module (the USB adapter) is a recording fake with a BMC
+# at 20h on the bus that answers Get Device ID.
+AARDVARK_ATTR = {'pullups': 'i2c_pullups', 'power': 'target_power', 'fastmode': 'i2c_bitrate'}
+
+
+class _FakeAdapter(object):
+    def __init__(self):
+        object.__setattr__(self, 'writes', [])
+        object.__setattr__(self, 'pending', None)
+
+    def __setattr__(self, name, value):
+        self.writes.append((name, value))
+        object.__setattr__(self, name, value)
+
+    def enable_i2c_slave(self, addr):
+        pass
+
+    def close(self):
+        pass
+
+    def i2c_master_write(self, i2c_addr, data):
+        d = list(bytearray(data))        # netFn/rsLUN, chk1, rqSA, rqSeq/rqLUN, cmd, data, chk2
+        rs_sa = i2c_addr << 1
+        netfn, rs_lun = d[0] >> 2, d[0] & 3
+        rq_sa, seq, rq_lun, cmd = d[2], d[3] >> 2, d[3] & 3, d[4]
+        body = GET_DEVICE_ID_RSP if (netfn, cmd) == (6, 1) else [0xc1]
+        h = [rq_sa, ((netfn | 1) << 2) | rq_lun]
+        h.append((-sum(h)) & 0xff)
+        t = [rs_sa, (seq << 2) | rs_lun, cmd] + body
+        t.append((-sum(t)) & 0xff)
+        object.__setattr__(self, 'pending', (rq_sa >> 1, bytes(bytearray(h[1:] + t))))
+
+    def poll(self, timeout):
+        return [1] if self.pending else []
+
+    def i2c_slave_read(self):
+        p = self.pending
+        object.__setattr__(self, 'pending', None)
+        return p
+
+
+class _FakePyaardvark(object):
+    def __init__(self):
+        self.dev = None
+
+    def open(self, port=None, serial_number=None):
+        self.dev = _FakeAdapter()
+        return self.dev
+
+
+def run_real_aardvark(argv):
+    import pyipmi.ipmitool as T
+    import pyipmi.interfaces.aardvark as A
+    fake = _FakePyaardvark()
+    real, real_json = A.pyaardvark, T.json_output
+    A.pyaardvark = fake
+    T.json_output = False
+    try:
+        with _quiet() as out:
+            sys.argv = ['ipmitool.py'] + list(argv)
+            try:
+                T.main()
+                ex = ('return',)
+            except SystemExit as e:
+                ex = ('exit', 0 if e.code is None else e.code)
+            except BaseException as e:  # noqa
+                ex = ('raise', type(e).__name__, str(e)[:200])
+            text = out.getvalue()
+    finally:
+        A.pyaardvark = real
+        T.json_output = real_json
+    return ex, (list(fake.dev.writes) if fake.dev is not None else None), text
+
+
+def aardvark_case(vals, order):
+    """vals: option -> 'on' | 'off' | None"""
+    s = ','.join('%s=%s' % (k, vals[k]) for k in order if vals[k] is not None)
+    argv = ['-I', 'aardvark'] + (['-o', s] if s else []) + ['raw', '6', '1']
+    return {'kind': 'aardvark', 'argv': argv, 'vals': dict(vals)}
+
+
+def aardvark_findings(case, run=None):
+    ex, writes, text = run or run_real_aardvark(case['argv'])
+    out = []
+    if ex != ('return',) or writes is None or text.strip() != ' '.join('%02x' % b for b in GET_DEVICE_ID_RSP):
+        first = next((k for k in ('pullups', 'power', 'fastmode') if case['vals'][k] is not None), 'none')
+        return [('C20:ifopt:aardvark:%s=%s:run' % (first, case['vals'].get(first)),
+                 'a run with documented aardvark interface options does not complete / print the reply',
+                 'return, reply of Get Device ID printed', '%s %r' % (ex, text[-120:]))]
+    for k in ('pullups', 'power', 'fastmode'):
+        v = case['vals'][k]
+        got = [x for n, x in writes if n == AARDVARK_ATTR[k]]
+        if k == 'fastmode':
+            want = None if v is None else [400 if v == 'on' else 100]
+            got = got[-1:]
+        else:
+            want = [] if v is None else [v == 'on']
+        if want is not None and got != want:
+            out.append(('C20:ifopt:aardvark:%s=%s' % (k, v),
+                        'aardvark interface option %s=%s does not take effect: the adapter is not written as given' % (k, v),
+                        '%s written: %r' % (AARDVARK_ATTR[k], want), 'adapter writes %r' % (writes,)))
+    return out
+
+
+def _aardvark(ctx):
+    rng = ctx.rng('aardvark')
+    drv = ctx.driver('drv_c20')
+    tok = {None: 'N', 'on': '1', 'off': '0'}
+    for p in (None, 'on', 'off'):
+        for w in (None, 'on', 'off'):
+            for f in (None, 'on', 'off'):
+                order = ['pullups', 'power', 'fastmode']
+                rng.shuffle(order)
+                case = aardvark_case({'pullups': p, 'power': w, 'fastmode': f}, order)
+                run = run_real_aardvark(case['argv'])
+                ctx.case(('aardvark',) + tuple(case['argv']), nontrivial=(p, w, f) != (None, None, None))
+                ctx.count('aardvark:pullups=%s' % p)
+                ctx.count('aardvark:power=%s' % w)
+                ctx.count('aardvark:fastmode=%s' % f)
+                model = drv.ask('aardvark %s %s %s' % (tok[p], tok[w], tok[f]))
+                code = 'no-adapter' if run[1] is None else ' '.join('%s=%d' % (n, int(x)) for n, x in run[1])
+                if model != code:
+                    ctx.disagree('aardvark-open', case, model, code)
+                for sig, what, exp, got in aardvark_findings(case, run):
+                    ctx.violate(sig, what, case, expected=exp, observed=got)
+
+
 # ---------------------------------------------------------------------------------------- run
 def _safe_snapshot(ctx):
     """the translator's snapshot; if the source left its grammar (already recorded as a broken tie by
@@ -1984,6 +2331,8 @@ def _probe(ctx):
         'all_errors_exit_nonzero / main_reports_every_failure: exitsCover': d['escaping'] == '-',
         'main_reports_every_failure: closeInside': d['closeInside'] == '1',
         'numeric_arguments_accept_hex: base10Args = []': d['int10'] == '-' and d['optint10'] == '-',
+        'channel_option_takes_effect: MainShape.bridge (bridging statement after the option loop)': d.get('bridge') == '1',
+        'aardvark_options_take_effect: pullupsNotNone, powerNotNone': d.get('pullupsNN') == '1' and d.get('powerNN') == '1',
         'portstate_no_python_error: linkNoneGuard': d['link'] == '1',
         'sdr_show_no_python_error: idStringGuard, entityGuard': d['idstr'] == '1' and d['entity'] == '1',
         'sdr_show_state_no_python_error: stateNoneGuard': d['state'] == '1',
@@ -2056,6 +2405,8 @@ def run(ctx):
         _lookup(ctx, snap)
         _ifopts(ctx)
         _options(ctx)
+        _bridge(ctx)
+        _aardvark(ctx)
         _raw(ctx)
         _entries(ctx, snap, unresolved_names)
     finally:
@@ -2210,6 +2561,18 @@ def replay(ctx, v):
         ctx._drivers = c2._drivers
         _table_facts(c2, snap)
         return any(x['signature'] == sig for x in c2.violations)
+    if kind == 'bridge':
+        c = dict(case, R=None if case.get('R') is None else [tuple(h) for h in case['R']])
+        found = bridge_findings(c, o)
+        for f in found:
+            print('  WRONG: %s\n    expected %s\n    observed %s' % (f[1], f[2], f[3]))
+        return any(f[0] == sig for f in found)
+    if kind == 'aardvark':
+        found = aardvark_findings(case)
+        print('  real Aardvark interface over a recording adapter: %r' % (run_real_aardvark(argv)[1],))
+        for f in found:
+            print('  WRONG: %s\n    expected %s\n    observed %s' % (f[1], f[2], f[3]))
+        return any(f[0] == sig for f in found)
     if kind in ('options', 'raw', 'lookup'):
         drv = ctx.driver('drv_c20')
         if kind == 'raw':
